@@ -15,7 +15,7 @@ pub type S2 = Sha2Hasher;
 #[derive(Clone, Debug, PartialEq)]
 pub struct Cfg {
     pub buckets: u32,
-    pub seed: u8,
+    pub seed: u32,
     pub cc: usize,
     pub io_workers: usize,
     pub rollback: bool,
@@ -50,6 +50,16 @@ impl Default for Cfg {
     }
 }
 
+/// The 16-byte bitbox seed derived from the configuration's seed number.
+pub fn seed_bytes(seed: u32) -> [u8; 16] {
+    let b = seed.to_be_bytes();
+    let mut out = [0u8; 16];
+    for i in 0..16 {
+        out[i] = b[i % 4] ^ (i as u8 / 4);
+    }
+    out
+}
+
 impl Cfg {
     pub fn to_json(&self) -> Value {
         json!({"buckets": self.buckets, "seed": self.seed, "cc": self.cc, "io_workers": self.io_workers,
@@ -63,7 +73,7 @@ impl Cfg {
         let b = |k: &str, dv: bool| v.get(k).and_then(|x| x.as_bool()).unwrap_or(dv);
         Cfg {
             buckets: u("buckets", d.buckets as u64) as u32,
-            seed: u("seed", d.seed as u64) as u8,
+            seed: u("seed", d.seed as u64) as u32,
             cc: u("cc", d.cc as u64) as usize,
             io_workers: u("io_workers", d.io_workers as u64) as usize,
             rollback: b("rollback", d.rollback),
@@ -81,7 +91,7 @@ impl Cfg {
         let mut o = Options::new();
         o.path(dir);
         o.hashtable_buckets(self.buckets);
-        o.bitbox_seed([self.seed; 16]);
+        o.bitbox_seed(seed_bytes(self.seed));
         o.commit_concurrency(self.cc);
         o.io_workers(self.io_workers);
         o.rollback(self.rollback);
